@@ -34,6 +34,7 @@ class HarnessResult:
         self.log = ""
         self.max_rss_mb = None
         self.unwind_failed = False
+        self.functions = set()       # functions of the crate under verification that carry checks in this harness
 
     def summary(self):
         return {
@@ -52,6 +53,7 @@ class HarnessResult:
             "config": self.spec.get("cfg", "dev"),
             "unwind": self.spec.get("unwind"),
             "stubs": self.stubs,
+            "functions": sorted(self.functions),
         }
 
 
@@ -91,6 +93,10 @@ def parse_output(res, out, repo_src):
     for m in CHECK_RE.finditer(out):
         num, name, status, desc, loc = m.groups()
         res.checks_total += 1
+        if loc and loc.startswith("src/") and "verif_" not in loc.split(" in function ")[0]:
+            fm = re.search(r" in function (.*)$", loc)
+            if fm:
+                res.functions.add(fm.group(1))
         if ".cover." in name or name.endswith(".cover"):
             # cover property: keyed by its description
             res.covers[desc] = status
